@@ -1,1 +1,139 @@
-From TT Require Import Lib.Base Lib.Sort Model.Reactor Model.Spinner Gen.Spinnertabs Spec.C15 Corr.C15 Proof.C15.
+(* C15 - Spinner.run returns the function's own result within the timeout and restores
+   process state (partial: the reactor, Twisted's Deferred and signal delivery are modelled).
+   Only statements; every proof is `exact <lemma of Proof/C15*.v>`. *)
+From Coq Require Import Permutation.
+From TT Require Import Lib.Base Lib.Sort Model.Reactor Model.Spinner Gen.Spinnertabs Spec.C15 Corr.C15
+                       Proof.C15Spec Proof.C15.
+
+(* The model meets the whole statement for EVERY history of runs on one Spinner: any number of runs, any
+   function program (shape, delays, leftovers, selectables, stop request at any instant, synchronous stop,
+   re-entrant call, handler installed by the function), any timeout, any pre-installed handlers, with or
+   without clear_junk, any tie-break oracle, both reactor modes.  Invariant over the event loop + induction
+   over the list of runs. *)
+Theorem C15_holds : forall i : input, wf i -> spec_okb i (model i) = true.
+Proof. exact model_meets_spec. Qed.
+Print Assumptions C15_holds.
+
+(* the executable statement implies the readable one *)
+Theorem C15_statement : forall i o, spec_okb i o = true -> Spec i o.
+Proof. exact spec_okb_sound. Qed.
+Print Assumptions C15_statement.
+
+(* the correspondence compares observations exactly *)
+Theorem C15_obs_eqb : forall a b, obs_eqb a b = true <-> a = b.
+Proof. exact obs_eqb_spec. Qed.
+Print Assumptions C15_obs_eqb.
+
+(* ---- the clauses, stated on the model's own state.  Ready w: the reactor is at rest (not running, no
+   pending calls, no selectables, never really stopped, reactor.stop is the original, no run() in
+   progress) and the harness's log of executed calls is empty. ---- *)
+
+(* the result is the one the timing dictates: a synchronous result is returned / raised; otherwise at least
+   one of {timeout call, Deferred fires, stop request} ran, each of those that ran was due at the earliest of
+   their three instants (simultaneous ones in the order the reactor chose), and run() reports TimeoutError
+   if the timeout call ran, else the Deferred's own result if it fired, else NoResultError *)
+Theorem C15_result : forall batch T f w, Ready w -> sp_junk (w_sp w) = [] ->
+  Allowed T f (w_ran (snd (run1 batch T f w))) (fst (run1 batch T f w)).
+Proof. exact clause_result. Qed.
+Print Assumptions C15_result.
+
+(* without ties and without a stop request: value / failure before the timeout, TimeoutError after it or never *)
+Theorem C15_result_untied : forall batch T f w r, Ready w -> sp_junk (w_sp w) = [] ->
+  f_stop f = None -> f_stop_now f = false -> r = fst (run1 batch T f w) ->
+  (forall how o, f_shape f = Sync how o -> r = result_of o)
+  /\ (forall t o, f_shape f = Later t o -> t < T -> r = result_of o)
+  /\ (forall t o, f_shape f = Later t o -> T < t -> r = Raised ETimeout)
+  /\ (f_shape f = Never -> r = Raised ETimeout).
+Proof. exact clause_result_untied. Qed.
+Print Assumptions C15_result_untied.
+
+(* the reactor is stopped strictly before the timeout and before the Deferred fires: NoResultError *)
+Theorem C15_result_stopped : forall batch T f w s, Ready w -> sp_junk (w_sp w) = [] ->
+  is_sync f = false -> f_stop_now f = false -> f_stop f = Some s -> s < T ->
+  (forall t o, f_shape f = Later t o -> s < t) ->
+  fst (run1 batch T f w) = Raised ENoResult.
+Proof. exact clause_result_stopped. Qed.
+Print Assumptions C15_result_stopped.
+
+(* re-entrant use is refused and changes nothing, whatever the state ... *)
+Theorem C15_reentry : forall iters batch T f w, w_flag w = true -> run iters batch T f w = (Raised EReentry, w).
+Proof. exact run_reentrant. Qed.
+Print Assumptions C15_reentry.
+
+(* ... in particular the call the function makes from inside run(); and the flag is reset afterwards *)
+Theorem C15_reentry_inside : forall batch T f w, Ready w -> sp_junk (w_sp w) = [] -> f_reenter f = true ->
+  w_reentry (snd (run1 batch T f w)) = Some true /\ w_flag (snd (run1 batch T f w)) = false.
+Proof. exact clause_reentry. Qed.
+Print Assumptions C15_reentry_inside.
+
+(* junk that has not been cleared: refused, nothing happens *)
+Theorem C15_stale_junk : forall batch T f w, Ready w -> sp_junk (w_sp w) <> [] ->
+  run1 batch T f w = (Raised EStaleJunk, w).
+Proof. exact clause_stale. Qed.
+Print Assumptions C15_stale_junk.
+
+(* on every exit the reactor is not running, holds no delayed call and no selectable, the re-entrancy flag
+   is reset; every call / selectable the function left either ran or is in junk, exactly once; the
+   spinner's own timeout call is junk only when the reactor was stopped first *)
+Theorem C15_clean : forall batch T f w, Ready w ->
+  let w' := snd (run1 batch T f w) in
+  running (w_r w') = false /\ queue (w_r w') = [] /\ readers (w_r w') = [] /\ w_flag w' = false
+  /\ (sp_junk (w_sp w) = [] ->
+      Permutation (filter nt (w_ran w') ++ filter nt (sp_junk (w_sp w'))) (sched_tokens f)
+      /\ (In tok_timeout (sp_junk (w_sp w')) -> fst (run1 batch T f w) = Raised ENoResult)).
+Proof. exact clause_clean. Qed.
+Print Assumptions C15_clean.
+
+(* reactor.stop is the original again and was never really called; the handlers of SIGINT, SIGTERM, SIGCHLD
+   are what they were before the call - whatever the reactor and the function installed meanwhile *)
+Theorem C15_restored : forall batch T f w, Ready w ->
+  let w' := snd (run1 batch T f w) in
+  w_stop w' = SReal /\ really_stopped (w_r w') = false
+  /\ forall s, In s reactor_signals -> getsig s (w_sig w') = getsig s (w_sig w).
+Proof. exact clause_restored. Qed.
+Print Assumptions C15_restored.
+
+(* the same for the n-th run of one spinner, with or without clear_junk between the runs *)
+Theorem C15_histories : forall i, wf i -> Spec i (model i).
+Proof. exact clause_histories. Qed.
+Print Assumptions C15_histories.
+
+(* the event loop itself: from the state in which it is entered it always ends by a crash (never hangs,
+   never runs out of the fuel run() supplies) and preserves the invariant *)
+Theorem C15_loop_terminates : forall x batch fuel w, Inv x w -> length (queue (w_r w)) < fuel ->
+  exists w', loop w_r set_r exec_call batch fuel w = (LDone, w') /\ Inv x w' /\ running (w_r w') = false.
+Proof. exact loop_ok. Qed.
+Print Assumptions C15_loop_terminates.
+
+(* ---- table obligations: Gen/Spinnertabs.v is printed from the imported code on every run ---- *)
+(* Spinner._PRESERVED_SIGNALS covers the three signals the statement names (and the reactor installs) *)
+Theorem C15_table_preserved : forall s, In s [sig_int; sig_term; sig_chld] -> In s preserved_signals.
+Proof. exact tab_preserved. Qed.
+Print Assumptions C15_table_preserved.
+
+(* Spinner._OBLIGATORY_REACTOR_ITERATIONS = 0: _clean runs no leftover call (with > 0 a leftover stop request
+   due at once would call the REAL reactor.stop) *)
+Theorem C15_table_iterations : spinner_iterations = 0.
+Proof. exact tab_iterations. Qed.
+Print Assumptions C15_table_iterations.
+
+Theorem C15_table_signals_distinct : NoDup [sig_int; sig_term; sig_chld].
+Proof. exact tab_signals_distinct. Qed.
+Print Assumptions C15_table_signals_distinct.
+
+(* non-vacuity: a failing run, then a Deferred firing exactly at the timeout tick (the oracle lets it win),
+   then a run that leaves junk and is stopped, a refused run, and a run after clear_junk that re-enters *)
+Example C15_example :
+  let f0 := mkFn (Sync 0 (Fail 1)) [] 0 None false false None in
+  let f1 := mkFn (Later 5 (Succeed 6)) [5] 0 None false false None in
+  let f2 := mkFn Never [1; 9] 2 (Some 3) false false (Some (sig_int, 8)) in
+  let f3 := mkFn (Sync 0 (Succeed 4)) [] 0 None false true None in
+  let i := mkInput [2] false
+             [mkRun false true [0;0;0] 5 f0; mkRun false true [3;1;4] 5 f1; mkRun false true [2;0;0] 5 f2;
+              mkRun false false [0;0;0] 5 f3; mkRun false true [0;0;0] 5 f3] in
+  wf i /\ spec_okb i (model i) = true
+  /\ map o_res (model i) = [Raised (EUser 1); Ok 6; Raised ENoResult; Raised EStaleJunk; Ok 4]
+  /\ map o_junk (model i) = [[]; [10]; [0; 11; 100; 101]; [0; 11; 100; 101]; []]
+  /\ map o_sigs (model i) = [[0;0;0]; [3;1;4]; [2;0;0]; [0;0;0]; [0;0;0]]
+  /\ map o_reentry (model i) = [None; None; None; None; Some true].
+Proof. vm_compute. repeat split; repeat constructor. Qed.
